@@ -21,6 +21,8 @@ SPEC = {
     # property speaks about, and the model is proved to satisfy the property, so a disagreement is a
     # failing input of the property or of the tie
     "disagreement_is_violation": True,
+    # when an obligation breaks without a failing input, search with 2x (not 10x) the cases: a case costs ~35 ms
+    "search_factor": 2,
     "rule": "case = generated CONFIGURATION (0-3 periodic tasks, 1-4 programs of counted statements that can "
             "fault at a chosen activation: division by zero directly / inside a FUNCTION / inside a "
             "FUNCTION_BLOCK, array index out of bounds; globals bound to %I/%Q/%M addresses of every size; an INT "
